@@ -30,6 +30,8 @@ SCORE_KINDS = [
     "uint",  # unsigned integer dtypes (quantised scores): differences wrap, negation is not available
     "int8wide",  # int8 spanning the whole dtype range: differences overflow
     "float16",
+    "huge",  # magnitudes near the top of the float64 range (sums of two scores may overflow, products do)
+    "subnormal",  # magnitudes in the subnormal range (relative epsilons vanish, spacing is absolute)
     "negzero",  # scores rounded to one decimal: +0.0 and -0.0 both occur (equal as numbers, different bit patterns)
 ]
 
@@ -114,6 +116,18 @@ def scores(rng, min_pos=0, min_neg=0, maxn=40, kinds=None, big=False):
             pos, neg = allv[:npos], allv[npos:]
     elif kind == "float16":
         pos, neg = rng.normal(0.5, 1, npos).astype(np.float16), rng.normal(-0.5, 1, nneg).astype(np.float16)
+    elif kind == "huge":
+        sc_ = float(rng.choice([1e300, 2.0 ** 1000, 1.7e308]))
+        if rng.random() < 0.5:
+            pos, neg = rng.integers(-4, 9, npos) * (sc_ / 10), rng.integers(-8, 5, nneg) * (sc_ / 10)
+        else:
+            pos, neg = rng.uniform(-1, 1, npos) * sc_, rng.uniform(-1, 1, nneg) * sc_
+        if rng.random() < 0.35 and npos and nneg:  # separated either way: midpoints of the two classes' extremes overflow
+            allv = np.sort(np.concatenate([pos, neg]))
+            pos, neg = (allv[nneg:], allv[:nneg]) if rng.random() < 0.5 else (allv[:npos], allv[npos:])
+    elif kind == "subnormal":
+        sc_ = float(rng.choice([5e-324, 1e-310, 2.0 ** -1040]))
+        pos, neg = rng.integers(-4, 9, npos) * sc_, rng.integers(-8, 5, nneg) * sc_
     elif kind == "negzero":
         w = float(rng.choice([0.02, 0.08, 0.3]))  # narrow: most of a class is one signed zero
         mp, mn = (float(x) for x in rng.choice([-0.02, 0.02], 2))
@@ -167,11 +181,12 @@ def thresholds(rng, allv, n=12, with_inf=True):
         c = rng.choice(allv, min(4, n))
         out += list(c) + list(np.nextafter(c, np.inf)) + list(np.nextafter(c, -np.inf))
         lo, hi = allv.min(), allv.max()
-        out += [lo - 1.0, hi + 1.0, float(rng.uniform(lo, hi)) if hi > lo else lo]
+        u = float(rng.random())
+        out += [lo - 1.0, hi + 1.0, float(lo * (1 - u) + hi * u) if hi > lo else lo]  # no hi - lo: may overflow
         s = np.unique(allv)
         if len(s) > 1:
             j = int(rng.integers(0, len(s) - 1))
-            out.append((s[j] + s[j + 1]) / 2)
+            out.append(s[j] / 2 + s[j + 1] / 2)
     out = np.array(out, dtype=float)
     return out[rng.permutation(len(out))]
 
